@@ -9,7 +9,7 @@ META = dict(
         quick="whole runs with every duration, sleeper overshoot, raw strategy value (any real, incl. negative and "
               "> remaining), start instant and deadline_s >= 0 a solver real: N=4 exception failures (Retry/AsyncRetry "
               "call+execute), N=3 with exception+result failures and max_attempts symbolic (incl. Policy/RetryPolicy "
-              "sugar)",
+              "sugar, the @retry decorator and the from_config constructors)",
         thorough="N=6 / N=4",
     ),
     assumptions=[
@@ -93,7 +93,8 @@ def jobs(tier):
                         max_wall_s=600 if q else 3000, weight=3))
     # (b) both causes + success + symbolic max_attempts
     N = 3 if q else 4
-    for entry in CORE + ["policy.call", "apolicy.execute", "rp.execute", "arp.call"]:
+    for entry in CORE + ["policy.call", "apolicy.execute", "rp.execute", "arp.call", "deco.call", "adeco.call", "rpcfg.execute",
+                         "arpcfg.call", "retrycfg.call", "aretrycfg.execute"]:
         out.append(dict(name=f"mixed:{entry}", harness="rv.props.c02:h_run",
                         params=dict(entry=entry, N=N, kinds=["ok", "exc", "res"], classes=["TRANSIENT"],
                                     max_attempts="sym", timed=True, strat=strat, hooks=False),
